@@ -98,6 +98,7 @@ def build(tier, seed, exclude):
     g.cond("h_path_ext", "stem: str, e1: str, e2: str, keep: bool, two: bool",
            ["1 <= len(stem) <= 2 and 1 <= len(e1) <= 2 and 1 <= len(e2) <= 2",
             "all(c not in stem + e1 + e2 for c in ('/', '.', chr(0)))"], """
+        keep = T.real(keep)                                   # the task class is cached per (template, keep): no symbolic value may get into it
         ext = [e1] + ([e2] if two else [])
         fname = ".".join([stem] + ext)
         try:
@@ -111,6 +112,30 @@ def build(tier, seed, exclude):
             return T.fail(lambda: "input %r keep_extension=%s: output %r, expected %s/%s" % (fname, keep, str(p), CACHE, want))
         return True
     """, timeout=to)
+    # two-input templates: a file followed by a number (whose text may contain a dot), extension kept or dropped as declared
+    g.raw("""
+    _T2 = ["{name}_thr{x}", "{name}_{x:.2f}", "{name}_{n}", "{name}_{x:.1f}_{n}"]
+    _XS = [0.5, 2.0, 0.25, 10.0]
+    """)
+    g.cond("h_path_ext_two_inputs", "ti: int, stem: str, e1: str, e2: str, keep: bool, two: bool, xi: int, n: int",
+           ["0 <= ti < 4 and 0 <= xi < 4 and 0 <= n < 100 and 1 <= len(stem) <= 2 and 1 <= len(e1) <= 2 and 1 <= len(e2) <= 2",
+            "all(c not in stem + e1 + e2 for c in ('/', '.', chr(0)))"], """
+        stem, e1, e2, n = T.real((stem, e1, e2, n))          # name parts: realised (the solver picks them; the comparison below is concrete)
+        keep, two = T.real(keep), T.real(two)                 # the task class is cached per (template, keep): no symbolic value may get into it
+        tmpl, x = _T2[T.real(ti)], _XS[T.real(xi)]
+        ext = [e1] + ([e2] if two else [])
+        fname = ".".join([stem] + ext)
+        try:
+            p = _resolve(tmpl, keep, Path, name=Path("/data/in") / fname, x=x, n=n)
+        except Exception:
+            T.reach()
+            return True
+        T.reach()
+        want = tmpl.format(name=stem, x=x, n=n) + ("." + ".".join(ext) if keep else "")
+        if not _inside(p) or p.name != want:
+            return T.fail(lambda: "template %r, input %r, x=%r n=%r keep_extension=%s: output %r, expected %s/%s" % (tmpl, fname, x, n, keep, str(p), CACHE, want))
+        return True
+    """, timeout=to * 3)
     # explicitly supplied output path is used as given
     g.cond("h_explicit", "a: str, b: str", ["1 <= len(a) <= 2 and 1 <= len(b) <= 2", "all(c not in a + b for c in ('/', chr(0))) and a not in ('.', '..') and b not in ('.', '..')"], """
         given = Path("/elsewhere") / a / b
